@@ -91,6 +91,9 @@ def judge(d):
     tag = f"b={b} image={ish} box={n} batch={d['batch']} {'dask' if d['chunks'] else 'numpy'} compute={d['compute']} scale={scale}"
     with warnings.catch_warnings():
         warnings.simplefilter("ignore")
+        if d.get("preload") and nm:
+            # the parent has been used before it is binned (cached state must not leak into the binned loader)
+            loader.load(0, output_shape=n)
         binned = loader.binning(b, compute=d["compute"])
         other = loader.binning(b, compute=not d["compute"])
     # parent untouched
@@ -161,12 +164,13 @@ def cases(draw):
     for a in range(3):
         nb = draw(st.integers(box[a] + 4, box[a] + 8))
         ish.append(nb * b + (draw(st.integers(0, b - 1)) if draw(st.booleans()) else 0))
-    chunks = draw(gen.chunkings(ish, min_chunk=2)) if draw(st.booleans()) else None
+    chunks = draw(gen.chunkings(ish, min_chunk=8)) if draw(st.booleans()) else None
     cls = draw(st.sampled_from(["grid", "grid", "free"]))
     mols = [{"k": [draw(st.integers(0, 30)) for _ in range(3)], "f": [round(draw(st.floats(0, 1)), 3) for _ in range(3)],
              "rot": draw(gen.rotvecs())} for _ in range(draw(st.integers(1, 4)))]
     return {"b": b, "box": box, "ishape": ish, "chunks": chunks, "compute": draw(st.booleans()), "batch": draw(st.booleans()),
-            "scale": draw(gen.scales), "order": draw(st.sampled_from([0, 1, 3])), "cls": cls, "mols": mols, "seed": draw(gen.seeds)}
+            "scale": draw(gen.scales), "order": draw(st.sampled_from([0, 1, 3])), "cls": cls, "mols": mols, "seed": draw(gen.seeds),
+            "preload": draw(st.booleans())}
 
 
 def nontrivial(d):
@@ -175,7 +179,7 @@ def nontrivial(d):
 
 def labels(d):
     return [f"b:{d['b']}", "divisible" if not any(s % d["b"] for s in d["ishape"]) else "non-divisible", f"cls:{d['cls']}",
-            "batch" if d["batch"] else "single", "dask" if d["chunks"] else "numpy", f"compute:{d['compute']}"] + gen.parity_class(d["box"])
+            "batch" if d["batch"] else "single", "dask" if d["chunks"] else "numpy", f"compute:{d['compute']}", "parent-used-first" if d.get("preload") else "fresh-parent"] + gen.parity_class(d["box"])
 
 
 def engines():
